@@ -100,7 +100,7 @@ func (z *ZodBigInt[T]) Coerce(input any) (any, bool) {
 
 // Parse validates input and returns a value matching the generic type T.
 func (z *ZodBigInt[T]) Parse(input any, ctx ...*core.ParseContext) (T, error) {
-	if input == nil {
+	if isNilBigIntInput(input) {
 		r, sub, done, err := z.parseNilInput(ctx...)
 		if done {
 			return r, err
@@ -133,6 +133,10 @@ func (z *ZodBigInt[T]) ParseAny(input any, ctx ...*core.ParseContext) (any, erro
 
 // StrictParse validates input with compile-time type safety.
 func (z *ZodBigInt[T]) StrictParse(input T, ctx ...*core.ParseContext) (T, error) {
+	if isNilBigIntInput(any(input)) {
+		// same nil pass as Parse: *big.Int is the value type, not an "optional" pointer
+		return z.Parse(nil, ctx...)
+	}
 	return engine.ParsePrimitiveStrict(
 		input,
 		&z.internals.ZodTypeInternals,
@@ -398,9 +402,7 @@ func (z *ZodBigInt[T]) parseNilInput(
 
 	ti := &z.internals.ZodTypeInternals
 
-	if ti.NonOptional {
-		return zero, nil, true, issues.CreateNonOptionalError(pctx)
-	}
+	// Priority: Default > Prefault > NonOptional > Optional/Nilable, as in engine.processModifiersCore.
 	if ti.DefaultValue != nil {
 		v, err := engine.ConvertToConstraintType[*big.Int, T](
 			engine.CloneDefaultValue(ti.DefaultValue),
@@ -423,6 +425,8 @@ func (z *ZodBigInt[T]) parseNilInput(
 		return zero, engine.CloneDefaultValue(ti.PrefaultValue), false, nil
 	case ti.PrefaultFunc != nil:
 		return zero, ti.PrefaultFunc(), false, nil
+	case ti.NonOptional:
+		return zero, nil, true, issues.CreateNonOptionalError(pctx)
 	case ti.Optional || ti.Nilable:
 		v, err := engine.ConvertToConstraintType[*big.Int, T](
 			nil,
@@ -437,6 +441,21 @@ func (z *ZodBigInt[T]) parseNilInput(
 			pctx,
 		)
 	}
+}
+
+// isNilBigIntInput reports whether input is an untyped nil or a nil *big.Int / **big.Int.
+// *big.Int is the schema's value type, so the engine's "T is a pointer, nil is fine" rule
+// must not see a typed nil: it would accept nil on a required schema and ignore NonOptional.
+func isNilBigIntInput(input any) bool {
+	switch v := input.(type) {
+	case nil:
+		return true
+	case *big.Int:
+		return v == nil
+	case **big.Int:
+		return v == nil
+	}
+	return false
 }
 
 // withPtrInternals creates a **big.Int schema from cloned internals.
